@@ -5,6 +5,7 @@ schedulers make, a virtual clock, and source-free failpoints (sys.monitoring
 LINE events) that crash an instance at the k-th statement."""
 import datetime
 import heapq
+import json
 import sys
 import threading
 
@@ -35,7 +36,8 @@ def record(tag):
     u = w.coop.current() if w else None
     INVOCATIONS.append({'tag': tag, 't': boot.CLOCK.rel(boot.CLOCK.now_sec()),
                         'instance': u.meta.get('instance') if u else None,
-                        'unit': u.label if u else None})
+                        'unit': u.label if u else None,
+                        'uid': u.uid if u else None})
     if w:
         w.rec.emit('SCHED_INVOKE', tag=tag, instance=u.meta.get('instance')
                    if u else None)
@@ -200,6 +202,83 @@ class SchedWorld(object):
         self._db_fault_fn = inject
         event.listen(self._db_fault_engine, 'before_cursor_execute', inject)
 
+    def _install_capture_steal(self):
+        """case['steal_capture'] = k: concurrent-writer injection.  Right
+        before the k-th capturing UPDATE of a live instance reaches the
+        database, the same statement issued by *another process* takes
+        effect (what a second scheduler process does between this one's
+        SELECT and UPDATE under READ COMMITTED; inside one process the two
+        are atomic).  This instance has then lost the arbitration for the
+        job: its UPDATE must match nothing and it must not invoke the job.
+        The other process never finishes the job (it is the one that 'dies'),
+        so a live instance recaptures it after the capture timeout."""
+        self._steal_fn = None
+        self.steals = []
+        k = self.case.get('steal_capture')
+        if not k or self.impl != 'default':
+            return
+        from sqlalchemy import event
+        import mistral.db.sqlalchemy.base as b
+        w = self
+        st_ = {'n': 0, 'busy': False}
+
+        def steal(conn, cursor, statement, parameters, context,
+                  executemany):
+            if st_['busy'] or w.steals:
+                return
+            up = statement.lstrip().upper()
+            if not up.startswith('UPDATE SCHEDULED_JOBS_V2') or \
+                    'CAPTURED_AT' not in up.split('WHERE')[0]:
+                return
+            u = w.coop.current()
+            if u is None or u.kind == 'sched' or \
+                    u.meta.get('instance') in w.crashed:
+                return
+            tag = None
+            con = boot.raw_connection()
+            for p_ in (parameters or ()):
+                if isinstance(p_, str):
+                    row = con.execute('SELECT func_args, captured_at FROM '
+                                      'scheduled_jobs_v2 WHERE id=?',
+                                      (p_,)).fetchone()
+                    if row:
+                        try:
+                            tag = json.loads(row[0]).get('tag')
+                        except Exception:
+                            tag = '?'
+                        was = row[1]
+            if tag is None:
+                return
+            if w.case.get('steal_recapture') and was is None:
+                return
+            st_['n'] += 1
+            if st_['n'] != k:
+                return
+            st_['busy'] = True
+            try:
+                cursor.execute(statement, parameters)
+            finally:
+                st_['busy'] = False
+            w.steals.append({'unit': u.label, 'uid': u.uid, 'tag': tag,
+                             'instance': u.meta.get('instance'),
+                             'recapture': was is not None,
+                             'n_inv': len(INVOCATIONS)})
+            w.rec.emit('FAULT', fault='job-captured-by-another-process',
+                       tag=tag, recapture=was is not None)
+        self._steal_engine = b.get_engine()
+        self._steal_fn = steal
+        event.listen(self._steal_engine, 'before_cursor_execute', steal)
+
+    def _remove_capture_steal(self):
+        if getattr(self, '_steal_fn', None) is not None:
+            from sqlalchemy import event
+            try:
+                event.remove(self._steal_engine, 'before_cursor_execute',
+                             self._steal_fn)
+            except Exception:
+                pass
+            self._steal_fn = None
+
     def _remove_db_fault(self):
         if getattr(self, '_db_fault_fn', None) is not None:
             from sqlalchemy import event
@@ -212,6 +291,7 @@ class SchedWorld(object):
 
     def _install_failpoint(self):
         self._install_db_fault()
+        self._install_capture_steal()
         from mvf import failpoint
 
         def on_line(code, line):
@@ -232,6 +312,7 @@ class SchedWorld(object):
 
     def _remove_failpoint(self):
         self._remove_db_fault()
+        self._remove_capture_steal()
         from mvf import failpoint
         failpoint.deactivate()
 
